@@ -48,6 +48,7 @@ func (t *Block) Equal(u ValueType) bool {
 func (t *Block) OnFree() int {
 	var f Function
 	f.InternalName = "$" + GenSymbolName(t.Named()) + ".$$OnFree"
+	VerifEvent("use", currentModule)
 	if i := currentModule.findTableElem(f.InternalName); i != 0 {
 		return i
 	}
